@@ -9,7 +9,7 @@ use regex::Regex;
 
 use crate::{errors::{Result, XcpError}, config::{Config, Backup}};
 
-const BAK_PATTTERN: &str = r"^\~(\d+)\~$";
+const BAK_PATTTERN: &str = r"^\~([0-9]+)\~$";
 static BAK_REGEX: OnceLock<Regex> = OnceLock::new();
 
 fn get_regex() -> &'static Regex {
